@@ -74,6 +74,11 @@ pub struct Client {
     pub polled_since_env: bool,
     pub serde_mismatch: Vec<String>,
     pub run_pids: Vec<usize>,
+    /// result requests issued mid-run by the scheduler (Decision::N): (request id, process id)
+    pub result_probes: Vec<(u64, usize)>,
+    /// their answers: (process id, answer)
+    pub probe_answers: Vec<(usize, Result<(Value, Vec<Vec<u8>>), quiver_core::error::Error>)>,
+    pub observer_requests: u64,
 }
 
 impl Client {
@@ -92,6 +97,9 @@ impl Client {
             polled_since_env: false,
             serde_mismatch: Vec::new(),
             run_pids: Vec::new(),
+            result_probes: Vec::new(),
+            probe_answers: Vec::new(),
+            observer_requests: 0,
         }
     }
 
@@ -145,6 +153,7 @@ impl Client {
                 }
             }
         }
+        self.drain_probes(world);
         let _ = world.env.take_subscription_updates();
         self.polled_since_env = true;
         let steps = world.steps;
@@ -335,6 +344,60 @@ impl Client {
                 self.next_var(world, session, idx + 1, acc, vars, steps);
             }
         }
+    }
+
+    /// Collect the answers of the mid-run result requests that have arrived.
+    pub fn drain_probes(&mut self, world: &mut World) {
+        let mut i = 0;
+        while i < self.result_probes.len() {
+            let (req, pid) = self.result_probes[i];
+            match world.env.poll_request(req) {
+                Ok(None) => i += 1,
+                Ok(Some(RequestResult::Result(r, _))) => {
+                    self.probe_answers.push((pid, r));
+                    self.result_probes.swap_remove(i);
+                }
+                _ => {
+                    self.result_probes.swap_remove(i);
+                }
+            }
+        }
+    }
+
+    /// An observer request issued at a moment the scheduler chose (Decision::N), independent of what
+    /// the client script is doing: a host UI polling statuses, or somebody asking for the result of a
+    /// process that is still running. Spawned processes only for the result requests (the session's
+    /// own process changes its result from line to line).
+    pub fn inject_observer(&mut self, world: &mut World, k: u64) {
+        world.begin_client_turn();
+        self.observer_requests += 1;
+        let pids: Vec<usize> = world.pid_names.keys().copied().collect();
+        let sel = (k / 8) as usize;
+        let r = match k % 8 {
+            0 => world.env.request_statuses().map(Some),
+            1 => world.env.request_worker_info().map(Some),
+            2 | 3 if !pids.is_empty() => world.env.request_process_info(pids[sel % pids.len()]).map(Some),
+            4..=7 => {
+                let spawned: Vec<usize> = world.pid_names.iter().filter(|(_, n)| n.contains('/')).map(|(p, _)| *p).collect();
+                if spawned.is_empty() {
+                    Ok(None)
+                } else {
+                    let pid = spawned[sel % spawned.len()];
+                    match world.env.request_result(pid, None) {
+                        Ok(req) => {
+                            self.result_probes.push((req, pid));
+                            Ok(None)
+                        }
+                        Err(e) => Err(e),
+                    }
+                }
+            }
+            _ => Ok(None),
+        };
+        if let Ok(Some(req)) = r {
+            self.noise_reqs.push(req);
+        }
+        world.scan_new_msgs();
     }
 
     fn noise(&mut self, world: &mut World, n: &Noise) {
